@@ -542,10 +542,13 @@ end Legacy
 
 /-! ## bundled descriptor classes vs the reference DESCRIPTORs -/
 open Bp.Gen.Desc in
-/-- a bundled class agrees with the reference message on every field number they share:
-    same field name, same proto type, same repeated-ness -/
+/-- a bundled class agrees with the reference message on every field number they share
+    (same field name, same proto type, same repeated-ness) and on every field name they share
+    (same number) -/
 def rowsAgree (ref : List FRow) (rows : List FRow) : Bool :=
-  rows.all fun r => ref.all fun q => !(q.num = r.num) || (q.name = r.name && q.ty = r.ty && q.rep = r.rep)
+  rows.all fun r => ref.all fun q =>
+    (!(q.num = r.num) || (q.name = r.name && q.ty = r.ty && q.rep = r.rep))
+    && (!(q.name = r.name) || q.num = r.num)
 
 open Bp.Gen.Desc in
 def libAgrees (lib : List (Nat × List FRow)) : Bool :=
